@@ -463,12 +463,45 @@ def exec_block(st, stmts):
         exec_stmt(st, s)
 
 
+_GHOST_CACHE = {}
+
+
+def run_ghost(st, stmts):
+    """Ghost statements from the sidecar contract: executed by the same executor, they may assign only ghost
+    locals (names starting with `_g`) and declared ghost fields; frame checks are suspended for them."""
+    saved = st.frames
+    st.frames = None
+    try:
+        for src in stmts:
+            if src not in _GHOST_CACHE:
+                _GHOST_CACHE[src] = ast.parse(src).body
+            for g in _GHOST_CACHE[src]:
+                for t in ast.walk(g):
+                    if isinstance(t, ast.Name) and isinstance(t.ctx, ast.Store) and not t.id.startswith('_g'):
+                        raise Undecided('ghost statement assigns non-ghost local %s' % t.id)
+                m = _STMT.get(type(g))
+                m(st, g)
+    finally:
+        st.frames = saved
+
+
 def exec_stmt(st, s):
     st.lineno = getattr(s, 'lineno', st.lineno)
     m = _STMT.get(type(s))
     if m is None:
         raise Undecided('unsupported statement %s at line %s' % (type(s).__name__, st.lineno))
     m(st, s)
+    ga = getattr(st.contract, 'ghost_after', None) if st.contract is not None else None
+    if ga and not st.spec and not isinstance(s, (ast.If, ast.For, ast.While, ast.Try, ast.With)):
+        key = getattr(s, '_src', None)
+        if key is None:
+            try:
+                key = ast.unparse(s)
+            except Exception:
+                key = ''
+            s._src = key
+        if key in ga:
+            run_ghost(st, ga[key])
 
 
 def ex_expr(st, s):
